@@ -157,7 +157,7 @@ func qq_loop(xs []MalType) MalType {
 		elt := xs[i]
 		switch e := elt.(type) {
 		case List:
-			if starts_with(e.Val, "splice-unquote") {
+			if starts_with(e.Val, "splice-unquote") && len(e.Val) > 1 {
 				acc = NewList(Symbol{Val: "concat"}, e.Val[1], acc)
 				continue
 			}
@@ -175,7 +175,7 @@ func quasiquote(ast MalType) MalType {
 	case HashMap, Symbol:
 		return NewList(Symbol{Val: "quote"}, ast)
 	case List:
-		if starts_with(a.Val, "unquote") {
+		if starts_with(a.Val, "unquote") && len(a.Val) > 1 {
 			return a.Val[1]
 		} else {
 			return qq_loop(a.Val)
@@ -449,11 +449,18 @@ func EVAL(ctx context.Context, ast MalType, env EnvType) (res MalType, e error) 
 			ast = quasiquote(a1)
 		case "defmacro":
 			fn, e := EVAL(ctx, a2, env)
-			fn = fn.(MalFunc).SetMacro()
 			if e != nil {
 				return nil, e
 			}
-			return env.Set(a1.(Symbol), fn), nil
+			mfn, ok := fn.(MalFunc)
+			if !ok {
+				return nil, lisperror.NewLispError(fmt.Errorf("defmacro requires a function (was of type %T)", fn), ast)
+			}
+			name, ok := a1.(Symbol)
+			if !ok {
+				return nil, lisperror.NewLispError(fmt.Errorf("cannot use '%T' as identifier", a1), ast)
+			}
+			return env.Set(name, mfn.SetMacro()), nil
 		case "macroexpand":
 			return macroexpand(ctx, a1, env)
 		case "try":
@@ -479,6 +486,9 @@ func EVAL(ctx context.Context, ast MalType, env EnvType) (res MalType, e error) 
 			switch first(last) {
 			case "catch":
 				finallyDo = nil
+				if len(last.(List).Val) < 3 {
+					return nil, lisperror.NewLispError(errors.New("catch must have 2 arguments at least"), ast)
+				}
 				catchBind = last.(List).Val[1]
 				catchDo = List{Val: last.(List).Val[2:]}
 				tryDo = List{Val: lst[1 : len(lst)-1]}
@@ -489,6 +499,9 @@ func EVAL(ctx context.Context, ast MalType, env EnvType) (res MalType, e error) 
 				finallyDo = List{Val: last.(List).Val[1:]}
 				switch first(prelast) {
 				case "catch":
+					if len(prelast.(List).Val) < 3 {
+						return nil, lisperror.NewLispError(errors.New("catch must have 2 arguments at least"), ast)
+					}
 					catchBind = prelast.(List).Val[1]
 					catchDo = List{Val: prelast.(List).Val[2:]}
 					tryDo = List{Val: lst[1 : len(lst)-2]}
@@ -557,6 +570,9 @@ func EVAL(ctx context.Context, ast MalType, env EnvType) (res MalType, e error) 
 				ast = a2
 			}
 		case "fn":
+			if len(ast.(List).Val) < 2 {
+				return nil, lisperror.NewLispError(errors.New("fn requires a parameter list"), ast)
+			}
 			fn := MalFunc{
 				Eval:    EVAL,
 				Exp:     List{Val: append([]MalType{Symbol{Val: "do"}}, ast.(List).Val[2:]...)},
@@ -608,7 +624,7 @@ func EVAL(ctx context.Context, ast MalType, env EnvType) (res MalType, e error) 
 }
 
 func first(list MalType) string {
-	if list != nil && Q[List](list) && Q[Symbol](list.(List).Val[0]) {
+	if list != nil && Q[List](list) && len(list.(List).Val) > 0 && Q[Symbol](list.(List).Val[0]) {
 		return list.(List).Val[0].(Symbol).Val
 	}
 	return ""
@@ -617,7 +633,11 @@ func first(list MalType) string {
 func malRecover(err *error) {
 	rerr := recover()
 	if rerr != nil {
-		*err = rerr.(error)
+		if e, ok := rerr.(error); ok {
+			*err = e
+		} else {
+			*err = lisperror.NewLispError(rerr, nil)
+		}
 	}
 }
 
